@@ -312,6 +312,8 @@ def inj_grammar(r, cfg):
                   "reserved", "dup-tag", "dec-tag", "dec-method", "fn", "gofn", "must-no-getter"])
     svs = [n for n, sv in (cfg.get("services") or {}).items() if not sv.get("todo")]
     bad = r.choice(BAD_NAMES)
+    if k in ("getter", "pkg", "fn") and bad == "a_":
+        bad = "9a"              # ("a_" is outside the name grammar of parameters / services / tags, but it is a Go identifier)
     if k == "pname":
         cfg.setdefault("parameters", {})[bad] = 1
     elif k == "sname":
